@@ -1189,6 +1189,23 @@ func (vc *VC) modVarsOfExpr(m Expr, fn *ssa.Function, k *FuncContract, sigs ...*
 	if k != nil {
 		env.evalLets(k)
 	}
+	// dummy results, so that items such as fields(result) resolve to their variables
+	var rsig *types.Signature
+	if fn != nil {
+		rsig = fn.Signature
+	} else if len(sigs) > 0 {
+		rsig = sigs[0]
+	}
+	if rsig != nil {
+		for i := 0; i < rsig.Results().Len(); i++ {
+			t := rsig.Results().At(i).Type()
+			cv := cval{t: "0", typ: t, sort: vc.sortOf(t)}
+			if cv.sort != "Int" {
+				cv.t = zeroOf(cv.sort)
+			}
+			env.results = append(env.results, cv)
+		}
+	}
 	func() {
 		defer func() {
 			if recover() != nil {
